@@ -32,6 +32,10 @@ func optStr(k int) string {
 // ptLen picks a plaintext length around the segment boundaries (first = room
 // in the first segment, full = room in the others).
 func ptLen(r *hx.Rng, first, full int) int {
+	// now and then more than 256 segments, so that the second counter byte of the nonce is used
+	if full <= 2 && r.Chance(3) || full <= 30 && r.Chance(1) {
+		return first + (255+r.Intn(40))*full + r.Intn(full+1)
+	}
 	switch r.Intn(12) {
 	case 0:
 		return 0
